@@ -97,6 +97,8 @@ type HarnessResult struct {
 }
 
 func (e *Engine) runHarness(cfg *HarnessCfg, pkg *ssa.Package) *HarnessResult {
+	gil.Lock()
+	defer gil.Unlock()
 	t0 := time.Now()
 	if cfg.Unwind == 0 {
 		cfg.Unwind = 8
@@ -221,15 +223,15 @@ func (ex *Exec) runPath(fn *ssa.Function, prefix []int) (out pathOutcome) {
 			case unwindHit:
 				out = pathOutcome{"unwind", "loop bound " + fmt.Sprint(ex.cfg.Unwind) + " reached on a feasible path at " + r.where}
 			case inconclusive:
-				out = pathOutcome{"inconclusive", r.reason}
+				out = pathOutcome{"inconclusive", r.reason + " [stack: " + ex.abortStack + "]"}
 			case unknownUse:
-				out = pathOutcome{"inconclusive", "use of unknown value: " + r.u.why}
+				out = pathOutcome{"inconclusive", "use of unknown value: " + r.u.why + " [stack: " + ex.abortStack + "]"}
 			case fatalErr:
-				out = pathOutcome{"engine-error", r.msg}
+				out = pathOutcome{"engine-error", r.msg + " [stack: " + ex.abortStack + "]"}
 			default:
 				st := stackTrace()
-				if len(st) > 3000 {
-					st = st[:3000]
+				if len(st) > 9000 {
+					st = st[:9000]
 				}
 				out = pathOutcome{"engine-error", fmt.Sprintf("%v\n%s", r, st)}
 			}
